@@ -176,6 +176,10 @@ func (c *Ctx) Report(key, what string, replay any) {
 			return
 		}
 	}
+	// replay mode: only the recorded violation counts
+	if rk := os.Getenv("VERIF_REPLAY_KEY"); rk != "" && rk != key {
+		return
+	}
 	v := Violation{Key: key, What: what, Replay: replay}
 	if f := os.Getenv("VERIF_DUMP_KEYS"); f != "" {
 		if fh, err := os.OpenFile(f, os.O_CREATE|os.O_APPEND|os.O_WRONLY, 0o644); err == nil {
